@@ -1,6 +1,7 @@
 import Capella.Driver.Util
 import Capella.Model.Geom
 import Capella.Model.GeomEdge
+import Capella.Model.GeomTree
 /-!
 Line-protocol driver for `Capella.Geom` (property C17).
 
@@ -153,8 +154,42 @@ def edgeInOf (j : Json) : Except String EdgeIn := do
          anchor := ← v2Of (← get j "anchor"), rel := ← (← (← get j "rel").getArr?).toList.mapM v2Of,
          style := ← styleOf (← j.getObjValAs? String "style") }
 
+/-! ### box nesting (`Model/GeomTree.lean`) -/
+
+/-- `{"layout": [x, y, w, h], "port": b, "flat": b, "kids": [...]}` -/
+partial def nodeOf (j : Json) : Except String Node := do
+  let a ← ratsOf (← get j "layout") 4
+  let port ← (← get j "port").getBool?
+  let flat ← (← get j "flat").getBool?
+  let kids ← (← (← get j "kids").getArr?).toList.mapM nodeOf
+  pure (.mk (layoutRel a[0]! a[1]! port) (layoutSize a[2]! a[3]! port flat) port kids)
+
+def jbox (b : Box) : Json := Json.arr #[jv2 b.pos, jv2 b.size]
+
+/-- branch tags: re-evaluates `snapToParent` node by node, parents before children -/
+partial def treeTags (oh m : Rat) (parent : Option Box) : Node → List String
+  | .mk rel size port kids =>
+    match parent with
+    | none => "tree:top-level" :: kids.flatMap (treeTags oh m (some { pos := rel, size := size, port := port }))
+    | some pb =>
+      let child : Box := { pos := pb.pos + rel, size := size, port := port }
+      match snapToParent oh m pb child with
+      | .error e => [if port then "tree:port:error-" ++ errName e else "tree:child:clamped-to-nothing"]
+      | .ok box =>
+        let t := if port then (if box.pos = child.pos then "tree:port:on-border-already" else "tree:port:moved")
+          else (if box.pos = child.pos then "tree:child:pos-kept" else "tree:child:pos-clamped") ++
+               (if box.size = child.size then "+size-kept" else "+size-shrunk")
+        t :: kids.flatMap (treeTags oh m (some box))
+
+def treeAnswer (oh m : Rat) (n : Node) : Json :=
+  let tags := toJson (treeTags oh m none n)
+  match placeTop oh m n with
+  | .error e => Json.mkObj [("e", Json.str (errName e)), ("br", tags)]
+  | .ok p => Json.mkObj [("boxes", Json.arr (p.boxes.map jbox).toArray), ("br", tags)]
+
 def handle (op : String) (j : Json) : Except String Json := do
   match op with
+  | "tree" => pure (treeAnswer (← ratOf (← get j "overhang")) (← ratOf (← get j "margin")) (← nodeOf (← get j "root")))
   | "edge" => pure (edgeAnswer (← edgeInOf j))
   | "snapEnd" =>
     -- one `snaptarget` call on points given outermost-first
